@@ -61,6 +61,9 @@ ASSUMPTIONS = [
     'bytes unless EOF); short reads happen at the raw layer underneath, with buffer sizes 1..8192',
     'bytes that share a chunk with an invalid type byte and follow it may be dropped or framed, but not '
     'partly; everything fed in later calls must be framed exactly',
+    'tcp and unix server transports keep a client after an unrecognised type byte (the push parser "frames subsequently '
+    'fed well-formed data correctly" is read at the transport boundary): what that client sends next must come out; '
+    'the websocket server, which drops the client at the pinned commit, is not judged on this',
     'a websocket client is "cut at byte position c" by sending the first c bytes in 1-2 binary messages '
     'and then closing or aborting the connection',
 ]
@@ -72,7 +75,7 @@ MIN_EVENTS = {
               'usbsrc_packets': 4000, 'usbsrc_transfers': 5000, 'usbsrc_empty_iso_packets': 800,
               'server_tcp_cuts': 120, 'server_unix_cuts': 120, 'server_ws_cuts': 90,
               'server_packets_seen': 1000, 'source_sink_reattached_mid_packet': 20000,
-              'server_clients_reset_with_unread_data': 60},
+              'server_clients_reset_with_unread_data': 60, 'server_invalid_byte_clients': 40},
     'thorough': {'parser_chunks': 20000000, 'reader_packets': 30000000, 'areader_chunks': 20000000,
                  'usb_chunks': 15000000, 'oracle_evals': 150000000, 'agree_evals': 10000000,
                  'exhaustive_chunkings': 400000, 'huge_streams': 2000, 'truncated_streams': 100000,
@@ -80,7 +83,7 @@ MIN_EVENTS = {
                  'usbsrc_packets': 100000, 'usbsrc_transfers': 100000, 'usbsrc_empty_iso_packets': 15000,
                  'server_tcp_cuts': 1200, 'server_unix_cuts': 1200, 'server_ws_cuts': 1200,
                  'server_packets_seen': 12000, 'source_sink_reattached_mid_packet': 400000,
-                 'server_clients_reset_with_unread_data': 600},
+                 'server_clients_reset_with_unread_data': 600, 'server_invalid_byte_clients': 400},
 }
 CASE_TIMEOUT = 600
 SOCKET_WAIT = 60.0          # wall seconds for one counted socket event; expiry => inconclusive
@@ -117,7 +120,7 @@ def plan(tier, seed):
     nsrv = 2 if q else 24
     for kind in ('tcp', 'unix', 'ws'):
         for i in range(nsrv):
-            for style in (('half-close', 'close', 'abort', 'reset-unread') if kind != 'ws' else ('close', 'abort')):
+            for style in (('half-close', 'close', 'abort', 'reset-unread', 'invalid-byte') if kind != 'ws' else ('close', 'abort')):
                 cases.append({'kind': 'server', 'transport': kind, 'style': style,
                               'seed': base + 17000 + i, 'chain': False})
         for i in range(2 if q else 16):
@@ -1161,6 +1164,39 @@ class Server:
                 rd, wr = await wall(asyncio.open_connection(*self.addr), 'connect')
             else:
                 rd, wr = await wall(asyncio.open_unix_connection(self.addr), 'connect')
+            if style == 'invalid-byte':
+                # the first client sends its whole stream with one unrecognised type byte, in a write of its own,
+                # at the packet boundary nearest to the cut position; what it sends afterwards is still its
+                # stream and must come out framed (tcp / unix servers keep the client, as the push parser
+                # "frames subsequently fed well-formed data correctly")
+                b0 = max(b for b in [0] + list(self.bounds_for_invalid) if b <= len(data))
+                for part, bad in ((data[:b0], False), (bytes([rng.choice([0x00, 0x06, 0x07, 0x80, 0xFF])]), True),
+                                  (self.full_for_invalid[b0:], False)):
+                    if part:
+                        mark = TAP['bytes']
+                        try:
+                            wr.write(part)
+                            await wall(wr.drain(), 'drain')
+                        except (ConnectionError, OSError):
+                            break       # the server dropped the client: the sink comparison will say what is missing
+                        await wait_tap(mark + len(part), f'{self.kind} client bytes around the invalid byte')
+                        if bad:
+                            TAP['raised'] = None
+                TAP['raised'] = None
+                TAP['invalid_clients'] = TAP.get('invalid_clients', 0) + 1
+                try:
+                    wr.write_eof()
+                    await wall(rd.read(), 'server-side close after EOF')
+                except (ConnectionError, OSError):
+                    pass
+                wr.close()
+                try:
+                    await wall(wr.wait_closed(), 'client close')
+                except (ConnectionError, OSError):
+                    pass
+                for _ in range(3):
+                    await asyncio.sleep(0)
+                return
             if style == 'reset-unread':
                 # the client will go away with bytes from the server still unread in its socket: the
                 # server then sees ECONNRESET (connection_lost(error), no EOF) even on AF_UNIX, where
@@ -1252,7 +1288,21 @@ async def server_pair(r: R, kind, rng, s1: Stream, cut, styles, s2: Stream, s3=N
         prev_cls = None
         TAP['raised'] = None
         for idx, (s, c, style) in enumerate(clients):
-            await srv.client(s.data[:c], style, rng)
+            if style == 'invalid-byte':
+                srv.bounds_for_invalid, srv.full_for_invalid = s.bounds, s.data
+            try:
+                await srv.client(s.data[:c], style, rng)
+            except HarnessTimeout:
+                if style != 'invalid-byte':
+                    raise
+                r.ev('oracle_evals')
+                r.bad(f'server/{kind}/after-invalid-byte/client-dropped',
+                      f'after one unrecognised type byte at a packet boundary the {kind} server stopped taking the '
+                      f'bytes of the same client (stream {s.desc}, cut {c})')
+                return False
+            if style == 'invalid-byte':
+                r.ev('server_invalid_byte_clients', TAP.pop('invalid_clients', 0))
+                c = len(s.data)
             if TAP.get('resets'):
                 r.ev('server_clients_reset_with_unread_data', TAP.pop('resets'))
             if TAP['raised'] is not None:
